@@ -21,10 +21,12 @@
   are the coarse ones.  `ALV.Lemmas.C17Fine` proves that, when no iterable raises, every fine step
   is a coarse step or a stutter step (`pull`), i.e. the fine system refines the coarse one.
 
-  An iterable that raises kills the player thread (`FCfg.dieFixed = false`: the code as it is —
-  no epilogue: the device stream stays open and the thread stays in `_threads`), or, with
-  proposed_fixes/D21-player-dies-close-spins.diff (`dieFixed = true`: `try … finally` around the
-  loop), sends it to its epilogue.
+  An iterable that raises (`Cfg.fails`, copied into `Player.fail` / `Asm.fail`) kills the player
+  thread (`FCfg.dieFixed = false`: the code as it was — no epilogue: the device stream stays open
+  and the thread stays in `_threads`), or, with proposed_fixes/D21-player-dies-close-spins.diff
+  (`dieFixed = true`: `try … finally` around the loop, in /repo since dd9cc91), sends it to its
+  epilogue — then this step IS the coarse system's exception step and the refinement holds for
+  raising iterables too (`ALV.Lemmas.C17Fine.sim_reach` under `Sound`).
 
   Mathlib-free; executable.
 -/
@@ -39,8 +41,7 @@ structure Asm where
   deriving Repr, Inhabited
 
 structure FCfg where
-  cfg : Cfg
-  fails : List Bool              -- by player index: the iterables that raise after their samples
+  cfg : Cfg                      -- `cfg.fails`: by player index, the iterables that raise after their samples
   dieFixed : Bool                -- `run` has its loop inside `try … finally` (proposed fix)
   deriving Repr, Inhabited
 
@@ -52,8 +53,8 @@ structure FState where
 def initF (script : List Cmd) : FState := { base := init script, asm := [] }
 
 /-- `AudioThread.__init__` stores the iterable: nothing is pulled before `run` -/
-def newAsm (fc : FCfg) (i : Nat) (p : Player) : Asm :=
-  { rest := p.audio, fail := fc.fails.getD i false, buf := [] }
+def newAsm (_fc : FCfg) (_i : Nat) (p : Player) : Asm :=
+  { rest := p.audio, fail := p.fail, buf := [] }
 
 /-- one `Asm` for the player the control script may just have created -/
 def syncAsm (fc : FCfg) (ps : List Player) (asm : List Asm) : List Asm :=
